@@ -44,6 +44,7 @@ type c36Model struct {
 	crossOwnerRefused bool // a non-owner who owns another key / is the DAO owner was refused
 	ownerStored       bool // an owner change was verified stored
 	reassigned        bool
+	dropped           []string // parameter keys that a gov/acl change removed from the list
 	daoOwnerMoved     bool
 }
 
@@ -167,6 +168,9 @@ func (m *c36Model) genChangeParam(rt *rapid.T, c *harness.Case, forceKey string)
 			// process instead of a reported violation; they take the same nil-owner path as these.
 			key = rapid.SampledFrom([]string{"pos/NoSuchParam", "noslash", "gov/", "pos/maxvalidators", "application/acl", "gov/ACL"}).Draw(rt, "badKey")
 			unknown = true
+		} else if len(m.dropped) > 0 && rapid.Bool().Draw(rt, "droppedKey") {
+			key = m.dropped[rapid.IntRange(0, len(m.dropped)-1).Draw(rt, "droppedIdx")]
+			c.Label("key:dropped-from-acl")
 		} else {
 			key = m.acl[rapid.IntRange(0, len(m.acl)-1).Draw(rt, "keyIdx")].Key
 		}
@@ -196,7 +200,16 @@ func (m *c36Model) genChangeParam(rt *rapid.T, c *harness.Case, forceKey string)
 		case tACL:
 			v = m.genReassignedACL(rt)
 			newACL := v.(govTypes.ACL)
-			op.apply = func() { m.acl = cloneACL(newACL); m.reassigned = true }
+			op.apply = func() {
+				// parameters the new list no longer names stay known to the model (their type), but have no owner
+				for _, p := range m.acl {
+					if newACL.GetOwner(p.Key) == nil {
+						m.dropped = append(m.dropped, p.Key)
+					}
+				}
+				m.acl = cloneACL(newACL)
+				m.reassigned = true
+			}
 		case tAddress:
 			ids := m.fundedIdents()
 			id := ids[rapid.IntRange(0, len(ids)-1).Draw(rt, "newDaoOwner")]
@@ -273,6 +286,20 @@ func (m *c36Model) genReassignedACL(rt *rapid.T) govTypes.ACL {
 			idx = rapid.IntRange(0, len(acl)-1).Draw(rt, "aclIdx")
 		}
 		acl[idx].Addr = append(sdk.Address{}, ids[rapid.IntRange(0, len(ids)-1).Draw(rt, "newOwner")].addr...)
+	}
+	// a replacement list may also simply leave a parameter out (nothing validates a gov/acl change): that parameter then
+	// has no owner at all, and nobody may change it
+	if rapid.IntRange(0, 3).Draw(rt, "dropKey") == 0 {
+		var cand []int
+		for j, p := range acl {
+			if p.Key != "gov/acl" && p.Key != "gov/daoOwner" && p.Key != "gov/upgrade" {
+				cand = append(cand, j)
+			}
+		}
+		if len(cand) > 0 {
+			j := cand[rapid.IntRange(0, len(cand)-1).Draw(rt, "dropIdx")]
+			acl = append(acl[:j:j], acl[j+1:]...)
+		}
 	}
 	return acl
 }
